@@ -461,12 +461,22 @@ class Transfer:
         self.status_zlp_pending = False   # previous event: status IN token answered with a ZLP
         self.committed = False
         self.answered_status = False
+        self.status_acked = False         # the host ACKed the status ZLP: the transfer is over from its point of view
+        self.status_ins = 0               # status-stage IN tokens so far
+        self.status_stalled = False       # a status-stage IN was answered with STALL
         if self.type == 0:
             self.unsupported = (self.request not in HANDLED_STD) or \
                 (self.request == 1 and (self.recipient != 2 or self.value != 0))
         else:
             self.unsupported = claimed_by_extra(spec, su) == 0
         self.clean = True                 # no SETUP token / reset since the SETUP was ACKed
+        # requests whose handler answers the status-stage IN itself (ZLP, or STALL) and keeps doing so until the host
+        # ACKs: SET_ADDRESS, SET_CONFIGURATION, CLEAR_FEATURE(ENDPOINT_HALT) of the standard handler and the requests
+        # claimed by exactly one extra (register-write) handler.  Only these are judged on a REPEATED status IN.
+        if self.type == 0:
+            self.status_in_held = self.request in (5, 9, 1) and not self.unsupported
+        else:
+            self.status_in_held = claimed_by_extra(spec, su) == 1
         # ---- host-side view of a device-to-host data stage (C07: every data-stage IN is answered and the stage is
         #      neither advanced, restarted nor ended by traffic for other endpoints / other devices)
         self.tracked = (self.type == 0 and self.request in (0, 6, 8) and not self.unsupported and self.in_data
@@ -521,6 +531,8 @@ def monitor(log, spec):
             cur.status_zlp_pending = False
         if resp.kind == DH.RESP_GARBAGE:
             fail("C07", k, "c07-malformed-transmission", "the device transmitted something that is not one well-formed packet")
+        if cur is not None and zlp_pending and kind == "hs" and ev[1] == ACK and tok == (I, 0):
+            cur.status_acked = True
         if cur is not None:
             # the host's ACK of a data-stage packet is the event directly after the IN token that was answered with DATA
             if cur.pending_k is not None:
@@ -602,6 +614,19 @@ def monitor(log, spec):
                             first = not t.first_in_seen
                             t.first_in_seen = True
                             t.status_started = True
+                            t.status_ins += 1
+                            # "answers the status stage ... IN": as long as the host has not ACKed the status ZLP (its
+                            # ACK was lost / corrupted, or it never got the ZLP) the transfer is not finished for it and
+                            # it repeats the IN token; every one of them must be answered (ZLP / NAK / STALL), silence
+                            # is the failure.  Not judged after a STALL, a reset, or once the host has ACKed.
+                            if (not first and t.status_in_held and t.clean and not t.stalled and not t.status_stalled and not t.status_acked
+                                    and resp.is_none):
+                                fail("C07", k, "c07-repeated-status-in-not-answered",
+                                     "status-stage IN no. %d of the %r transfer got no answer although the host has not "
+                                     "acknowledged the status stage yet (old address %d)%s" % (t.status_ins, t.su, addr, between(t)))
+                            if resp.is_hs(STALL):
+                                t.status_stalled = True
+                            t.between = []
                             if resp.is_data and resp.payload:
                                 fail("C07", k, "c07-data-without-in-data-stage",
                                      "IN answered with %d data bytes although the SETUP %r has no device-to-host data stage"
